@@ -11,7 +11,7 @@ MUTANTS = [("MUT_Sections_found_off_by_one.cfg", "PastEndIsFeedback"), ("MUT_Sec
 
 
 def run(prop, tier, seed, ctx):
-    ctx.assumptions += ["code line i is concretised as `print(undef_i)` (variant A: TIFA + NameError at run time) or "
+    ctx.assumptions += ["code line i is concretised as `print((lambda p_i: undef_i)(1))` (variant A: two TIFA issues + NameError at run time) or "
                         "`print(undef_i` (variant B: syntax error), so every diagnostic names the line it is about",
                         "marker lines: default pattern and (thorough) one custom pattern"]
     ctx.cov["rule"] = ("case = (file as line kinds x trailing newline, mode, API behaviour separate/next*/stop|resolve) "
